@@ -105,7 +105,7 @@ def block_box_layout(context, box, bottom_space, skip_stack,
         if resume_at is None:
             new_box = result[0]
             columns_bottom_space = (
-                new_box.margin_bottom + new_box.padding_bottom +
+                max(0, new_box.margin_bottom) + new_box.padding_bottom +
                 new_box.border_bottom_width)
             if columns_bottom_space:
                 remove_placeholders(
